@@ -137,7 +137,7 @@ func (g *Gen) builtinAppend(f *Frame, v ssa.Value, cc *ssa.CallCommon, ins ssa.I
 	if single != nil {
 		content = base
 		for k, e := range single {
-			content = fmt.Sprintf("(store %s (+ (s_off %s) (s_len %s) %d) %s)", content, s.S, s.S, k, e)
+			content = fmt.Sprintf("(store %s (eidx (s_off %s) (+ (s_len %s) %d)) %s)", content, s.S, s.S, k, e)
 		}
 	} else {
 		arr := g.fresh("appended")
@@ -195,6 +195,9 @@ func extName(fn *ssa.Function) string {
 func (g *Gen) external(f *Frame, fn *ssa.Function, args []Arg, ins ssa.Instruction) []Term {
 	name := extName(fn)
 	sig := fn.Signature
+	if c := g.contracts["ext."+name]; c != nil {
+		return g.applyContract(f, c, c.Params, args, sig, ins, fn.Name())
+	}
 	a := func(k int) string { return args[k].t.S }
 	one := func(s string) []Term {
 		t := sig.Results().At(0).Type()
@@ -242,6 +245,16 @@ func (g *Gen) external(f *Frame, fn *ssa.Function, args []Arg, ins ssa.Instructi
 			g.emit("(assert (=> %s (forall ((r Int)) (! (=> (not (= r (s_ref %s))) (= (select %s r) (select %s r))) :pattern ((select %s r))))))", f.en, a(0), n, oldc, n)
 			g.trusted["sort: permutes the slice's elements (only the frame is modelled)"] = true
 			return nil
+		}
+	}
+	// constructors of external packages: a fresh, non-nil object
+	if sig.Results().Len() == 1 && strings.HasPrefix(fn.Name(), "New") {
+		if st := ptrElem(sig.Results().At(0).Type()); st != nil && isStruct(st) {
+			r := g.alloc(f.st, f.en)
+			g.allocEmbedded(f, r, st, 0)
+			g.trusted["external constructor "+name+": returns a freshly allocated non-nil object (embedded pointers too), never panics"] = true
+			rt := sig.Results().At(0).Type()
+			return []Term{{r, "Int", rt}}
 		}
 	}
 	// pure scalar functions: uninterpreted but functional
@@ -301,4 +314,24 @@ func extPure(name string) bool {
 		}
 	}
 	return false
+}
+
+// allocEmbedded gives the embedded pointer-to-struct fields of a freshly constructed external object fresh targets.
+func (g *Gen) allocEmbedded(f *Frame, ref string, st types.Type, depth int) {
+	if depth > 2 {
+		return
+	}
+	u := types.Unalias(st).Underlying().(*types.Struct)
+	for k := 0; k < u.NumFields(); k++ {
+		fl := u.Field(k)
+		if !fl.Embedded() {
+			continue
+		}
+		if inner := ptrElem(fl.Type()); inner != nil && isStruct(inner) {
+			r2 := g.alloc(f.st, f.en)
+			g.cur = f
+			g.write(f.st, g.fieldLoc(ref, st, k), r2)
+			g.allocEmbedded(f, r2, inner, depth+1)
+		}
+	}
 }
